@@ -10,6 +10,7 @@
  *   > <hex> / < <hex>              a request / response chunk ARRIVES (bytes in hex)
  *   g> <n> / g< <n>                a gap of n bytes arrives
  *   D <txidx>                      the user destroys transaction <txidx> between calls (only honoured if complete)
+ *   H <op> <n> [hex] [hex]         hybrid-mode API call on the n-th transaction created with "H create n" (ops: see hybrid_op)
  *   C                              htp_connp_close
  *   E                              end of scenario: destroy parser and configuration
  * mode=proto : the caller of docs/QUICK_START 2.2 (re-offers the unconsumed tail after DATA_OTHER, asymmetric unblocking)
@@ -473,6 +474,49 @@ static void emit_ret(rec_t *r, int d, const char *rcname, long consumed) {
 }
 
 /* one API data call; returns the stream state, *cons = bytes consumed */
+/* ---------------------------------------------------------------- hybrid-mode API (htp_tx_state_* / htp_tx_re[qs]_set_*): scenario lines "H <op> <tx> [hex] [hex]" */
+static __thread htp_tx_t *hy_tx[64];
+static int tx_listed(htp_connp_t *g, const htp_tx_t *tx) {
+    for (size_t i = 0, n = htp_list_size(g->conn->transactions); i < n; i++) if (htp_list_get(g->conn->transactions, i) == tx) return 1;
+    return 0;
+}
+static void hybrid_op(rec_t *r, const char *l) {
+    char op[32]; int n = -1, pos = 0;
+    if (sscanf(l, "%31s %d %n", op, &n, &pos) < 2 || n < 0 || n >= 64) return;
+    unsigned char *a = NULL, *b = NULL; size_t al = 0, bl = 0;
+    const char *rest = l + pos;
+    if (*rest && *rest != '\n') { al = unhex(rest, &a); const char *sp = strchr(rest, ' '); if (sp && sp[1] && sp[1] != '\n') bl = unhex(sp + 1, &b); }
+    htp_connp_t *g = r->connp;
+    htp_tx_t *tx = hy_tx[n];
+    fprintf(r->out, "{\"e\":\"HCall\",\"op\":\"%s\",\"tx\":%d,\"len\":%zu}\n", op, n, al);
+    int rc = HTP_OK, known = 1;
+    if (!strcmp(op, "create")) { tx = hy_tx[n] = htp_connp_tx_create(g); rc = tx ? HTP_OK : HTP_ERROR; if (tx) (void) txi(tx); }
+    else if (tx == NULL) { rc = HTP_ERROR; known = 0; }
+    else if (!strcmp(op, "qstart")) rc = htp_tx_state_request_start(tx);
+    else if (!strcmp(op, "qsetline")) rc = htp_tx_req_set_line(tx, (const char *) a, al, HTP_ALLOC_COPY);
+    else if (!strcmp(op, "qline")) rc = htp_tx_state_request_line(tx);
+    else if (!strcmp(op, "qhdr")) rc = htp_tx_req_set_header(tx, (const char *) a, al, (const char *) b, bl, HTP_ALLOC_COPY);
+    else if (!strcmp(op, "qheaders")) rc = htp_tx_state_request_headers(tx);
+    else if (!strcmp(op, "qbody")) rc = htp_tx_req_process_body_data(tx, a, al);
+    else if (!strcmp(op, "qcomplete")) rc = htp_tx_state_request_complete(tx);
+    else if (!strcmp(op, "sstart")) rc = htp_tx_state_response_start(tx);
+    else if (!strcmp(op, "ssetline")) rc = htp_tx_res_set_status_line(tx, (const char *) a, al, HTP_ALLOC_COPY);
+    else if (!strcmp(op, "sline")) rc = htp_tx_state_response_line(tx);
+    else if (!strcmp(op, "shdr")) rc = htp_tx_res_set_header(tx, (const char *) a, al, (const char *) b, bl, HTP_ALLOC_COPY);
+    else if (!strcmp(op, "sheaders")) rc = htp_tx_state_response_headers(tx);
+    else if (!strcmp(op, "sbody")) rc = htp_tx_res_process_body_data(tx, a, al);
+    else if (!strcmp(op, "scomplete")) rc = htp_tx_state_response_complete(tx);
+    else known = 0;
+    int live = tx != NULL && tx_listed(g, tx);
+    if (tx != NULL && !live) hy_tx[n] = NULL;           /* disposed of (auto-destroy): never touched again */
+    fprintf(r->out, "{\"e\":\"HRet\",\"op\":\"%s\",\"tx\":%d,\"rc\":\"%s\",\"known\":%s,\"live\":%s,\"rp\":%d,\"sp\":%d,\"in_tx\":%ld,\"out_tx\":%ld,\"ntx\":%zu,\"pipelined\":%s,\"mn\":%d,\"p09\":%s,\"tc\":%d,\"cl\":%ld,\"st\":%d,\"dec\":%s,\"qdec\":%s}\n",
+            op, n, rcn(rc), known ? "true" : "false", live ? "true" : "false", live ? (int) tx->request_progress : -1, live ? (int) tx->response_progress : -1,
+            txi(g->in_tx), txi(g->out_tx), htp_list_size(g->conn->transactions), (g->conn->flags & HTP_CONN_PIPELINED) ? "true" : "false",
+            live ? (int) tx->request_method_number : -1, live && tx->is_protocol_0_9 ? "true" : "false", live ? (int) tx->request_transfer_coding : -1,
+            live ? clampl(tx->request_content_length) : -1, live ? tx->response_status_number : -1, g->out_decompressor ? "true" : "false", g->req_decompressor ? "true" : "false");
+    free(a); free(b);
+}
+
 static int api_data(rec_t *r, int d, const unsigned char *src, size_t n, int gap, size_t *cons) {
     htp_connp_t *g = r->connp;
     unsigned char *p = NULL;
@@ -499,7 +543,7 @@ static void run_scenario(rec_t *r, char **lines, int nl, const char *name, int p
     memset(r->expq, 0, sizeof r->expq); memset(r->exps, 0, sizeof r->exps);
     memset(r->bodyhash, 0, sizeof r->bodyhash); memset(r->bodylen, 0, sizeof r->bodylen);
     memset(r->cbolen, 0, sizeof r->cbolen); for (int i = 0; i < 64; i++) r->cborder[0][i][0] = r->cborder[1][i][0] = 0;
-    r->off[0] = r->off[1] = 0; r->pid = pid; g_serial = 0; r->fault_reported = 0;
+    r->off[0] = r->off[1] = 0; r->pid = pid; g_serial = 0; r->fault_reported = 0; memset(hy_tx, 0, sizeof hy_tx);
     for (int i = 0; i < nl; i++) {
         char *l = lines[i];
         if (l[0] == 'K') { strncat(kline, l + 1, sizeof kline - strlen(kline) - 2); size_t m = strlen(kline); if (m && kline[m - 1] == '\n') kline[m - 1] = ' '; }
@@ -557,6 +601,8 @@ static void run_scenario(rec_t *r, char **lines, int nl, const char *name, int p
             int ok = tx != NULL && htp_tx_is_complete(tx);
             fprintf(r->out, "{\"e\":\"Destroy\",\"tx\":%zu,\"done\":%s}\n", idx, ok ? "true" : "false");
             if (ok) htp_tx_destroy(tx);
+        } else if (l[0] == 'H' && l[1] == ' ') {
+            hybrid_op(r, l + 2);
         } else if (l[0] == 'C') {
             fprintf(r->out, "{\"e\":\"Call\",\"d\":\"both\",\"k\":\"close\",\"len\":0,\"off\":0}\n");
             if (g_gate) g_gate(r);
